@@ -60,7 +60,9 @@ impl Monitor for C05 {
             if credited != nofee {
                 out.violation(P, "no_fee_above_threshold", format!("{}: bSei rate {} >= threshold {} but credited {} instead of {}", path, pre.rb, pre.params.er_threshold, credited, nofee));
             }
-        } else if credited < min_credited {
+        // one unit of the credited token of slack: "amount x peg_recovery_fee" can be read on the payment or on the
+        // tokens, and the rounding order is not fixed
+        } else if credited + ((cap > 0) as u128) < min_credited {
             out.violation(P, "fee_within_proportional_cap", format!("{}: credited {} is below the no-fee amount {} minus the cap (minimum {})", path, credited, nofee, min_credited));
         }
         let fee_charged = credited < nofee;
